@@ -261,3 +261,28 @@ class CalibrateView:
             elif isinstance(c, ast.Call) and (dotted(c.func) or "").split(".")[-1] == "repeat" and len(c.args) >= 2:
                 out.append((c.args[0], c.args[1]))
         return out
+
+
+# ---------------------------------------------------------------------------------------------- abstract iterations
+def iteration_table(v: "CalibrateView", assignment: dict[str, bool]):
+    """Abstract paths through one iteration of the batch loop under a truth assignment of the atoms
+    P (convergence_precision is not None), C (check_convergence(...) is true), S (saving_folder is not None), V (verbose)."""
+    from .pathval import AtomTable, iteration_paths
+    conv, chk = {id(c) for c in v.convergence}, {id(c) for c in v.checkpoint}
+    others = {"update": v.update, "get_next": v.get_next, "sample": v.sample, "simulate": v.simulate, "loss": v.compute_loss}
+    by_id = {id(c): name for name, cs in others.items() for c in cs}
+
+    def call_atom(c: ast.Call):
+        if id(c) in conv:
+            return "C", "conv"
+        if id(c) in chk:
+            return None, "checkpoint"
+        if id(c) in by_id:
+            return None, by_id[id(c)]
+        return None, None
+
+    def write_event(s: ast.stmt) -> list[str]:
+        return [f"write:{a}" for a, stmts in v.writes.items() if any(x is s for x in stmts)]
+
+    atoms = AtomTable(v.sn, {"convergence_precision": "P", "saving_folder": "S"}, {"verbose": "V"}, call_atom)
+    return iteration_paths(v.g, v.head, v.loop_nodes, atoms, assignment, write_event)
